@@ -40,7 +40,7 @@ def judge_all(tag):
     def run(k):
         env = {"WOWM_OBJECTS": ldir + "/objects.ndjson", "WOWM_BLOCKS": ldir + "/blocks.ndjson",
                "WOWM_INDEX": ldir + "/index.json", "WOWM_NSHARDS": 1, "WOWM_SHARD": 0, "WOWM_NPROF": 1,
-               "WOWM_MAXLEN": 2, "WOWM_ONLY": "", "WOWM_DEEP": "0", "WOWM_FAULTS": "0", "WOWM_FAULT_EVERY": 1, "WOWM_CONST": wire.EMPTY_LIST,
+               "WOWM_MAXLEN": 2, "WOWM_ONLY": "", "WOWM_DEEP": "0", "WOWM_FAULTS": "0", "WOWM_FAULT_EVERY": 1, "WOWM_FAULT_PHASE": 0, "WOWM_CONST": wire.EMPTY_LIST,
                "WOWM_DECL": os.path.join(wd, "decl-%d.ndjson" % k)}
         return C.run_tlc("MCSizes", workers=1, timeout=900, env=env, name="%s-%d" % (tag, k), coverage=False, xmx="3g")
 
@@ -140,7 +140,7 @@ def selftest(tier):
         f.write(json.dumps(good) + "\n" + json.dumps(bad) + "\n")
     env = {"WOWM_OBJECTS": ldir + "/objects.ndjson", "WOWM_BLOCKS": ldir + "/blocks.ndjson",
            "WOWM_INDEX": ldir + "/index.json", "WOWM_NSHARDS": 1, "WOWM_SHARD": 0, "WOWM_NPROF": 1,
-           "WOWM_MAXLEN": 2, "WOWM_ONLY": "", "WOWM_DEEP": "0", "WOWM_FAULTS": "0", "WOWM_FAULT_EVERY": 1, "WOWM_CONST": wire.EMPTY_LIST,
+           "WOWM_MAXLEN": 2, "WOWM_ONLY": "", "WOWM_DEEP": "0", "WOWM_FAULTS": "0", "WOWM_FAULT_EVERY": 1, "WOWM_FAULT_PHASE": 0, "WOWM_CONST": wire.EMPTY_LIST,
            "WOWM_DECL": os.path.join(wd, "decl-st.ndjson")}
     res = C.run_tlc("MCSizes", workers=1, timeout=300, env=env, name="c09-selftest", coverage=False)
     oks = [r["minOk"] for r in res.replay]
